@@ -98,7 +98,10 @@ def template_texts(cfgd, style, uri_of):
         if t["inh"] == "static":
             head.append('<%%inherit file="%s"/>' % uris[t["p1"]][1])
         elif t["inh"] == "dyn":
-            head.append('<%%inherit file="${%r if context[\'sw\'] else %r}"/>' % (uris[t["p1"]][1], uris[t["p2"]][1]))
+            # decided at render time: the template below, the alternative base, or None ("do not inherit")
+            c1 = uris[t["p1"]][1] if t["p1"] else None
+            c2 = uris[t["p2"]][1] if t["p2"] else None
+            head.append('<%%inherit file="${%r if context[\'sw\'] == \'p1\' else (%r if context[\'sw\'] == \'p2\' else None)}"/>' % (c1, c2))
         if t["a"] == "truthy":
             head.append("<%%! a = %d %%>" % i)
         elif t["a"] == "falsy":      # a different falsy value per level
@@ -263,12 +266,12 @@ def random_cfg(rng, n):
     Inherit.tla's trace configuration."""
     def op(o, v="", nm=""):
         return {"op": o, "via": v, "name": nm}
-    k = rng.choice([0, 0] + list(range(2, n + 1))) if n >= 2 else 0
+    k = rng.choice([0] + list(range(1, n + 1)))        # the level with a dynamic <%inherit>: any level, or none
     pa = rng.random() < 0.3
     tpls = []
     for i in range(1, n + 2):
         decoy = i == n + 1
-        inh = "none" if (decoy or i == 1) else ("dyn" if i == k else "static")
+        inh = "none" if (decoy or (i == 1 and k != 1)) else ("dyn" if i == k else "static")
         hp = inh != "none"
         hn = i != n
         b = rng.random() < 0.5
@@ -276,7 +279,7 @@ def random_cfg(rng, n):
         if c == "inb" and not b:
             c = "top"
         t = {"f": rng.random() < 0.5, "a": rng.choice(["none", "falsy", "truthy"]), "b": b, "c": c, "inh": inh,
-             "p1": 0 if inh == "none" else i - 1, "p2": n + 1 if inh == "dyn" else 0}
+             "p1": 0 if inh == "none" or i == 1 else i - 1, "p2": n + 1 if inh == "dyn" else 0}
         vias = ["self", "local"] + (["next"] if hn else []) + (["parent"] if hp else [])
         mid = []
         for _ in range(rng.randrange(2, 6)):
@@ -306,7 +309,7 @@ def random_cfg(rng, n):
         t["bs"] = [op("emit", "B", "b")] + bs + [op("emit", "/B", "b")]
         t["cs"] = [op("emit", "B", "c")] + ([op("call", "parent", "c")] if hp and rng.random() < 0.4 else []) + [op("emit", "/B", "c")]
         tpls.append(t)
-    return {"fam": "trace", "N": n, "sw": rng.random() < 0.5, "pa": pa, "mode": "random", "tpl": tpls}
+    return {"fam": "trace", "N": n, "sw": rng.choice(["p1", "p2", "none"]), "pa": pa, "mode": "random", "tpl": tpls}
 
 
 def tok_rec(s):
@@ -407,6 +410,8 @@ def check(run):
         if k not in kinds:
             raise MachineryError("vacuous enumeration: no expected output contains a %r token" % k)
 
+    if not any(r["fam"] == "dyn" and r["sw"] == "none" and 1 < int(r["out"][0].split("|")[2]) < r["N"] for r in recs):
+        raise MachineryError("vacuous enumeration: no dynamic inherit yields None at a middle level")
     if not any(t.startswith("val|") and t.endswith("|0") for r in recs for t in r["out"]):
         raise MachineryError("vacuous enumeration: no expected output contains a falsy attribute value")
     # ------------------------------------------------------------------ 2. R: replay every configuration
